@@ -112,3 +112,100 @@ func (x *Pointer[T]) CompareAndSwap(o, n *T) bool {
 	pt(unsafe.Pointer(x), true)
 	return x.v.CompareAndSwap(o, n)
 }
+
+// The rest of the package's surface, so that any use of "sync/atomic" a maintainer may write compiles.
+
+func LoadUintptr(a *uintptr) uintptr { pt(unsafe.Pointer(a), false); return atomic.LoadUintptr(a) }
+func LoadPointer(a *unsafe.Pointer) unsafe.Pointer {
+	pt(unsafe.Pointer(a), false)
+	return atomic.LoadPointer(a)
+}
+func StoreUintptr(a *uintptr, v uintptr) { pt(unsafe.Pointer(a), true); atomic.StoreUintptr(a, v) }
+func StorePointer(a *unsafe.Pointer, v unsafe.Pointer) {
+	pt(unsafe.Pointer(a), true)
+	atomic.StorePointer(a, v)
+}
+func AddUintptr(a *uintptr, d uintptr) uintptr {
+	pt(unsafe.Pointer(a), true)
+	return atomic.AddUintptr(a, d)
+}
+func SwapUint32(a *uint32, v uint32) uint32 {
+	pt(unsafe.Pointer(a), true)
+	return atomic.SwapUint32(a, v)
+}
+func SwapUint64(a *uint64, v uint64) uint64 {
+	pt(unsafe.Pointer(a), true)
+	return atomic.SwapUint64(a, v)
+}
+func SwapUintptr(a *uintptr, v uintptr) uintptr {
+	pt(unsafe.Pointer(a), true)
+	return atomic.SwapUintptr(a, v)
+}
+func SwapPointer(a *unsafe.Pointer, v unsafe.Pointer) unsafe.Pointer {
+	pt(unsafe.Pointer(a), true)
+	return atomic.SwapPointer(a, v)
+}
+func CompareAndSwapUintptr(a *uintptr, o, n uintptr) bool {
+	pt(unsafe.Pointer(a), true)
+	return atomic.CompareAndSwapUintptr(a, o, n)
+}
+func CompareAndSwapPointer(a *unsafe.Pointer, o, n unsafe.Pointer) bool {
+	pt(unsafe.Pointer(a), true)
+	return atomic.CompareAndSwapPointer(a, o, n)
+}
+func AndInt32(a *int32, m int32) int32 { pt(unsafe.Pointer(a), true); return atomic.AndInt32(a, m) }
+func AndUint32(a *uint32, m uint32) uint32 {
+	pt(unsafe.Pointer(a), true)
+	return atomic.AndUint32(a, m)
+}
+func AndInt64(a *int64, m int64) int64 { pt(unsafe.Pointer(a), true); return atomic.AndInt64(a, m) }
+func AndUint64(a *uint64, m uint64) uint64 {
+	pt(unsafe.Pointer(a), true)
+	return atomic.AndUint64(a, m)
+}
+func AndUintptr(a *uintptr, m uintptr) uintptr {
+	pt(unsafe.Pointer(a), true)
+	return atomic.AndUintptr(a, m)
+}
+func OrInt32(a *int32, m int32) int32     { pt(unsafe.Pointer(a), true); return atomic.OrInt32(a, m) }
+func OrUint32(a *uint32, m uint32) uint32 { pt(unsafe.Pointer(a), true); return atomic.OrUint32(a, m) }
+func OrInt64(a *int64, m int64) int64     { pt(unsafe.Pointer(a), true); return atomic.OrInt64(a, m) }
+func OrUint64(a *uint64, m uint64) uint64 { pt(unsafe.Pointer(a), true); return atomic.OrUint64(a, m) }
+func OrUintptr(a *uintptr, m uintptr) uintptr {
+	pt(unsafe.Pointer(a), true)
+	return atomic.OrUintptr(a, m)
+}
+
+func (x *Int32) And(m int32) int32     { pt(unsafe.Pointer(x), true); return x.v.And(m) }
+func (x *Int32) Or(m int32) int32      { pt(unsafe.Pointer(x), true); return x.v.Or(m) }
+func (x *Int64) And(m int64) int64     { pt(unsafe.Pointer(x), true); return x.v.And(m) }
+func (x *Int64) Or(m int64) int64      { pt(unsafe.Pointer(x), true); return x.v.Or(m) }
+func (x *Uint64) And(m uint64) uint64  { pt(unsafe.Pointer(x), true); return x.v.And(m) }
+func (x *Uint64) Or(m uint64) uint64   { pt(unsafe.Pointer(x), true); return x.v.Or(m) }
+func (x *Uint64) Swap(v uint64) uint64 { pt(unsafe.Pointer(x), true); return x.v.Swap(v) }
+
+type Uint32 struct{ v atomic.Uint32 }
+
+func (x *Uint32) Load() uint32         { pt(unsafe.Pointer(x), false); return x.v.Load() }
+func (x *Uint32) Store(v uint32)       { pt(unsafe.Pointer(x), true); x.v.Store(v) }
+func (x *Uint32) Add(d uint32) uint32  { pt(unsafe.Pointer(x), true); return x.v.Add(d) }
+func (x *Uint32) Swap(v uint32) uint32 { pt(unsafe.Pointer(x), true); return x.v.Swap(v) }
+func (x *Uint32) And(m uint32) uint32  { pt(unsafe.Pointer(x), true); return x.v.And(m) }
+func (x *Uint32) Or(m uint32) uint32   { pt(unsafe.Pointer(x), true); return x.v.Or(m) }
+func (x *Uint32) CompareAndSwap(o, n uint32) bool {
+	pt(unsafe.Pointer(x), true)
+	return x.v.CompareAndSwap(o, n)
+}
+
+type Uintptr struct{ v atomic.Uintptr }
+
+func (x *Uintptr) Load() uintptr          { pt(unsafe.Pointer(x), false); return x.v.Load() }
+func (x *Uintptr) Store(v uintptr)        { pt(unsafe.Pointer(x), true); x.v.Store(v) }
+func (x *Uintptr) Add(d uintptr) uintptr  { pt(unsafe.Pointer(x), true); return x.v.Add(d) }
+func (x *Uintptr) Swap(v uintptr) uintptr { pt(unsafe.Pointer(x), true); return x.v.Swap(v) }
+func (x *Uintptr) And(m uintptr) uintptr  { pt(unsafe.Pointer(x), true); return x.v.And(m) }
+func (x *Uintptr) Or(m uintptr) uintptr   { pt(unsafe.Pointer(x), true); return x.v.Or(m) }
+func (x *Uintptr) CompareAndSwap(o, n uintptr) bool {
+	pt(unsafe.Pointer(x), true)
+	return x.v.CompareAndSwap(o, n)
+}
